@@ -1,5 +1,5 @@
 (* Proofs/ExprTcProofs.v — C08: a locally well-typed physical expression (pwt) evaluates, on a conforming
-   variable context, to a value its static type admits (or fails); the typechecker model tc produces locally
+   variable context, to a value its static type allows (or fails); the typechecker model tc produces locally
    well-typed expressions. *)
 From Octo Require Import Expr ExprProofs ExprTc.
 
@@ -64,9 +64,9 @@ Proof.
   unfold kinds_in. rewrite forallb_forall. intros H Hk. apply kmem_true in Hk. apply H. assumption.
 Qed.
 
-Lemma has_kind_null_admits t : has_kind K_NULL t = admits_null t.
+Lemma has_kind_null_allows t : has_kind K_NULL t = allows_null t.
 Proof.
-  destruct t as [|ks]; [reflexivity|]. unfold admits_null, is_rel, ksubset, kmeets, has_kind. simpl.
+  destruct t as [|ks]; [reflexivity|]. unfold allows_null, is_rel, ksubset, kmeets, has_kind. simpl.
   destruct (kmem K_NULL ks) eqn:E; simpl; reflexivity.
 Qed.
 
@@ -178,11 +178,11 @@ Proof.
 Qed.
 
 (* ---------- calls ---------- *)
-Lemma null_check_true_admits : forall tys vs k,
-  null_check vs (null_indices_from k tys) = Ok true -> existsb admits_null tys = true.
+Lemma null_check_true_allows : forall tys vs k,
+  null_check vs (null_indices_from k tys) = Ok true -> existsb allows_null tys = true.
 Proof.
   induction tys as [|t tys IH]; simpl; intros vs k H; [discriminate H|].
-  destruct (admits_null t) eqn:A; [reflexivity|]. simpl. eapply IH; eassumption.
+  destruct (allows_null t) eqn:A; [reflexivity|]. simpl. eapply IH; eassumption.
 Qed.
 
 Lemma evals_forall ev l vs :
@@ -240,7 +240,7 @@ Proof.
     + (* null check fired *)
       inversion Hv; subst. rewrite has_type_kind. simpl.
       unfold null_check_indices in Nc. destruct (fd_strict d); [|discriminate Nc].
-      apply null_check_true_admits in Nc. rewrite existsb_map' in Nc. simpl in Wnull. rewrite Nc in Wnull. exact Wnull.
+      apply null_check_true_allows in Nc. rewrite existsb_map' in Nc. simpl in Wnull. rewrite Nc in Wnull. exact Wnull.
     + destruct (apply_body (body_of d) vs) as [r|e|p] eqn:Ab; try discriminate Hv.
       2:{ destruct (e =? E_NOT_MODELLED); discriminate Hv. }
       inversion Hv; subst r. rewrite has_type_kind.
@@ -257,36 +257,36 @@ Proof.
         -- simpl in Ha. eapply kinds_in_mem; [eassumption|].
            destruct (fd_strict d) eqn:Sd; [|exact Ha].
            apply kmem_true. apply filter_In. split; [apply kmem_true; exact Ha|].
-           (* a strict call whose first argument admits NULL checks it *)
+           (* a strict call whose first argument allows NULL checks it *)
            destruct (tid v =? K_NULL) eqn:Tn; [|reflexivity]. exfalso.
            apply Z.eqb_eq in Tn. apply tid_null in Tn. subst v.
            unfold null_check_indices in Nc. rewrite Sd in Nc. simpl in Nc. rewrite Pa in Nc.
-           assert (A : admits_null (STSet ks) = true) by (rewrite <- has_kind_null_admits; exact Ha).
+           assert (A : allows_null (STSet ks) = true) by (rewrite <- has_kind_null_allows; exact Ha).
            rewrite A in Nc. simpl in Nc. discriminate Nc.
   - (* and *)
     apply andb_prop in W. destruct W as [W Wn]. apply andb_prop in W. destruct W as [W Wb].
     apply andb_prop in W. destruct W as [Wargs Wsub].
     pose proof (Forall_sound_args env ctx args H Wargs) as Hs.
-    set (nullable := existsb (fun a => admits_null (ptype a)) args) in *.
+    set (nullable := existsb (fun a => allows_null (ptype a)) args) in *.
     destruct (and_loop_typed (eval ctx) (map materialize args) nullable false v) as [A B]; [|exact Hv|].
     + intros x r Hin Er. apply in_map_iff in Hin. destruct Hin as [a [<- Hin]].
       pose proof (Hs a Hin r Er) as Ht. rewrite forallb_forall in Wsub.
       pose proof (sty_sub_type _ _ r (Wsub a Hin) Ht) as Hb. split; [apply has_type_bool_null_tv; exact Hb|].
       intros N. apply null_value in N. subst r. unfold nullable. apply existsb_exists. exists a. split; [exact Hin|].
-      rewrite <- has_kind_null_admits. rewrite has_type_kind in Ht. exact Ht.
+      rewrite <- has_kind_null_allows. rewrite has_type_kind in Ht. exact Ht.
     + apply is_tv_bool_null; [exact A|exact Wb|]. intros N. destruct (B N) as [C|C]; [discriminate C|].
       rewrite C in Wn. exact Wn.
   - (* or *)
     apply andb_prop in W. destruct W as [W Wn]. apply andb_prop in W. destruct W as [W Wb].
     apply andb_prop in W. destruct W as [Wargs Wsub].
     pose proof (Forall_sound_args env ctx args H Wargs) as Hs.
-    set (nullable := existsb (fun a => admits_null (ptype a)) args) in *.
+    set (nullable := existsb (fun a => allows_null (ptype a)) args) in *.
     destruct (or_loop_typed (eval ctx) (map materialize args) nullable false v) as [A B]; [|exact Hv|].
     + intros x r Hin Er. apply in_map_iff in Hin. destruct Hin as [a [<- Hin]].
       pose proof (Hs a Hin r Er) as Ht. rewrite forallb_forall in Wsub.
       pose proof (sty_sub_type _ _ r (Wsub a Hin) Ht) as Hb. split; [apply has_type_bool_null_tv; exact Hb|].
       intros N. apply null_value in N. subst r. unfold nullable. apply existsb_exists. exists a. split; [exact Hin|].
-      rewrite <- has_kind_null_admits. rewrite has_type_kind in Ht. exact Ht.
+      rewrite <- has_kind_null_allows. rewrite has_type_kind in Ht. exact Ht.
     + apply is_tv_bool_null; [exact A|exact Wb|]. intros N. destruct (B N) as [C|C]; [discriminate C|].
       rewrite C in Wn. exact Wn.
   - (* coalesce *)
@@ -299,7 +299,7 @@ Proof.
       apply existsb_exists in Wn. destruct Wn as [a [Hin Hna]].
       assert (Ea : peval ctx a = Ok VNull) by (apply (B eq_refl); apply in_map; exact Hin).
       pose proof (Hs a Hin VNull Ea) as Ht. rewrite has_type_kind in Ht. simpl in Ht.
-      rewrite has_kind_null_admits in Ht. rewrite Ht in Hna. discriminate Hna.
+      rewrite has_kind_null_allows in Ht. rewrite Ht in Hna. discriminate Hna.
     + destruct (A eq_refl) as [x [Hin Ex]]. apply in_map_iff in Hin. destruct Hin as [a [<- Hin]].
       eapply sty_sub_type; [apply Wsub; exact Hin|]. apply (Hs a Hin). exact Ex.
   - (* assert *)
@@ -348,7 +348,7 @@ Lemma kinds_in_upper ks t t' :
 Proof. unfold kinds_in. rewrite !forallb_forall. intros U H k Hk. apply U. apply H. exact Hk. Qed.
 
 (* ---------- a call typed the way FunctionExpression.Typecheck types it ---------- *)
-(* the declared OutputType with the nullable wrap admits everything the (modelled, fixed-kind) body returns
+(* the declared OutputType with the nullable wrap allows everything the (modelled, fixed-kind) body returns
    and the NULL a null check produces *)
 Lemma call_typed_ok d args ks :
   row_output_ok d = true -> body_result_kinds (body_of d) = Some ks ->
@@ -356,7 +356,7 @@ Lemma call_typed_ok d args ks :
 Proof.
   intros R Bk. unfold call_out_ok. rewrite Bk. unfold row_output_ok in R. rewrite Bk in R.
   apply andb_true_intro. split.
-  - unfold nullable_wrap. destruct (fd_strict d && existsb (fun a => admits_null (ptype a)) args); [|reflexivity].
+  - unfold nullable_wrap. destruct (fd_strict d && existsb (fun a => allows_null (ptype a)) args); [|reflexivity].
     apply type_sum_upper_r. reflexivity.
   - eapply kinds_in_upper; [|exact R]. intros k. apply nullable_wrap_upper.
 Qed.
